@@ -343,6 +343,8 @@ class Normalizer:
                     changed |= self._splice_sync(j, site[1], site[2])
                 elif site[0] == "comb":
                     changed |= self._expand_combinator(j, site[1], site[2], site[3])
+                elif site[0] == "then_some":
+                    changed |= self._expand_then_some(j, site[1])
                 else:
                     changed |= self._splice_poll(j, site[1], site[2], site[3], site[4])
             if not changed:
@@ -560,6 +562,9 @@ class Normalizer:
             if len(ctx) >= MAXDEPTH or blk.get("noinline"):
                 continue
             cal = c.resolved or c.name
+            if c.name.endswith("<impl bool>::then_some") and len(c.args) == 2 and not c.noise:
+                out.append(("then_some", c.bb))
+                continue
             if c.name in COMBINATORS and not c.noise:
                 spec = COMBINATORS[c.name]
                 need = sorted(set(_action_closure_args(spec[1]) + _action_closure_args(spec[2])))
@@ -763,6 +768,29 @@ class Normalizer:
             fin["t"] = {"k": "goto", "t": target, "sp": sp}
         emit(bA, actA, vA)
         emit(bB, actB, vB)
+        return True
+
+    def _expand_then_some(self, j, bb):
+        """`cond.then_some(v)` is `if cond { Some(v) } else { None }`"""
+        blk = j["blocks"][bb]
+        t = blk["t"]
+        if t["k"] != "call" or t["t"] is None or len(t["args"]) != 2:
+            return False
+        sp = t["sp"]
+        ctx = blk.get("ctx", [])
+        dest, target = t["dest"], t["t"]
+        C = self._new_local(j, "bool")
+        blk["s"].append({"k": "assign", "lhs": {"l": C, "p": []}, "rv": {"k": "use", "op": t["args"][0]}, "sp": sp, "inl": "subject"})
+        bT = self._new_block(j, ctx)
+        bF = self._new_block(j, ctx)
+        blk["t"] = {"k": "switch", "op": {"k": "move", "pl": {"l": C, "p": []}}, "ty": "bool", "arms": [["0", bF]], "otherwise": bT, "sp": sp, "inl": "combinator"}
+        j["blocks"][bT]["s"].append({"k": "assign", "lhs": dest, "rv": {"k": "agg", "ak": "adt", "adt": "std::option::Option", "variant": "Some", "fields": ["0"], "ops": [t["args"][1]], "def": None, "ety": None},
+                                      "sp": sp, "inl": "combinator-result"})
+        j["blocks"][bT]["t"] = {"k": "goto", "t": target, "sp": sp}
+        j["blocks"][bF]["s"].append({"k": "assign", "lhs": dest, "rv": {"k": "agg", "ak": "adt", "adt": "std::option::Option", "variant": "None", "fields": [], "ops": [], "def": None, "ety": None},
+                                      "sp": sp, "inl": "combinator-result"})
+        j["blocks"][bF]["t"] = {"k": "goto", "t": target, "sp": sp}
+        self.log.append((j["def"], "combinator", "bool::then_some"))
         return True
 
     def _splice_poll(self, j, bb, cb, st, croot):
